@@ -307,6 +307,10 @@ def _run_selection(case, ctx):
     units = gen.random_units(r) if r.random() < 0.5 else None
     spec = gen.point_spec(r, n=r.randint(1, 40), units=units, extras=True, meta={})
     route = r.choice(["df", "df_offset", "df_perm", "df_str", "df_cols", "df_branchcol"])
+    if case["seed"] % 4 == 1 and spec["branch"] and spec["branch"][0] == 0:
+        # a series that starts with the origin point (a reading at exactly zero pressure is a stored point like any other)
+        spec["pressure"][0], spec["loading"][0] = 0.0, 0.0
+        ctx.count("selection", "starts-with-the-origin-point")
     if case["seed"] % 3 == 0 and len(spec["branch"]) >= 3:
         # marks assigned by the user in whatever layout the experiment had (desorption scan inside the adsorption run, desorption
         # recorded before a re-adsorption): not "all adsorption rows, then all desorption rows"
